@@ -299,8 +299,13 @@ func (c *clipperBase) buildPath(op *OutPt, reverse, isOpen bool, path *Path64) b
 }
 
 func (c *clipperBase) executeInternal(ct ClipType, fillRule FillRule) {
-	if ct == NoClip {
+	if ct == NoClip || ct > Xor {
+		// nothing to clip: an empty solution, successfully
+		c.succeeded = true
 		return
+	}
+	if fillRule > Negative {
+		fillRule = EvenOdd
 	}
 
 	c.fillRule = fillRule
